@@ -183,10 +183,13 @@ func TestVfC17Ring(t *testing.T) {
 			}
 		}
 		// signature identifies the membership
-		if prev, ok := sigs[base.Signature()]; ok && prev != desc {
-			r.Violation("ring-signature-collision", fmt.Sprintf("two different rings share the signature %s: %s and %s", base.Signature(), prev, desc), wit)
+		// (the signature covers the members, the replica count and the hash values; two rings of the same members
+		// built with different hash functions which happen to agree on those members are the same ring)
+		member := fmt.Sprintf("replicas=%d nodes=%q", replicas, sorted)
+		if prev, ok := sigs[base.Signature()]; ok && prev != member {
+			r.Violation("ring-signature-collision", fmt.Sprintf("two rings of different membership share the signature %s: %s and %s", base.Signature(), prev, member), wit)
 		}
-		sigs[base.Signature()] = desc
+		sigs[base.Signature()] = member
 		// removal: only the names the removed node owned move
 		if n > 1 {
 			for xi, x := range nodes {
